@@ -70,7 +70,11 @@ rounded_udiv_128_by_48 (uint64_t  hi,
                         uint64_t *result_hi)
 {
     uint64_t tmp, remainder, result_lo;
-    assert(div < ((uint64_t)1 << 48));
+    /* The divisor may be exactly 2^48: rounded_sdiv_128_by_49() passes the
+     * absolute value of a 49-bit signed divisor, which is 2^48 for -2^48.
+     * The algorithm below is valid for that value too, since remainders
+     * stay below 2^48 and (remainder << 16) still fits in 64 bits. */
+    assert(div <= ((uint64_t)1 << 48));
 
     remainder = hi % div;
     *result_hi = hi / div;
